@@ -337,7 +337,7 @@ func Send(method, rawurl string, options ...SendOption) (*http.Response, error) 
 		// TODO (@evelynl): disable retry after tls migration.
 		if err != nil && req.URL.Scheme == "https" && !opts.httpFallbackDisabled {
 			originalErr := err
-			resp, err = fallbackToHTTP(client, method, opts)
+			resp, err = fallbackToHTTP(client, req)
 			if err != nil {
 				// Sometimes the request fails for a reason unrelated to https.
 				// To keep this reason visible, we always include the original
@@ -353,6 +353,9 @@ func Send(method, rawurl string, options ...SendOption) (*http.Response, error) 
 			d := opts.retry.backoff.NextBackOff()
 			if d == backoff.Stop {
 				break // Backoff timed out.
+			}
+			if !replayBody(req) {
+				break // The body was consumed by this attempt and cannot be sent again.
 			}
 			time.Sleep(d)
 			continue
@@ -474,13 +477,31 @@ func newRequest(method string, opts *sendOptions) (*http.Request, error) {
 	return req, nil
 }
 
-func fallbackToHTTP(
-	client *http.Client, method string, opts *sendOptions,
-) (*http.Response, error) {
-	req, err := newRequest(method, opts)
-	if err != nil {
-		return nil, err
+// replayBody prepares req for another attempt by installing a fresh copy of the
+// original body, since the previous attempt has (partially) consumed req.Body.
+// Returns false if the body cannot be replayed, i.e. it is a plain io.Reader for
+// which http.NewRequest could not derive GetBody. Such a request must not be
+// sent again: the server would receive a truncated or empty body.
+func replayBody(req *http.Request) bool {
+	if req.Body == nil || req.Body == http.NoBody {
+		return true
 	}
+	if req.GetBody == nil {
+		return false
+	}
+	body, err := req.GetBody()
+	if err != nil {
+		return false
+	}
+	req.Body = body
+	return true
+}
+
+func fallbackToHTTP(client *http.Client, req *http.Request) (*http.Response, error) {
+	if !replayBody(req) {
+		return nil, errors.New("request body cannot be replayed")
+	}
+	req = req.Clone(req.Context())
 	req.URL.Scheme = "http"
 
 	return client.Do(req)
